@@ -118,19 +118,31 @@ class TexttableCompuMethod(CompuMethod):
         odxraise(f"Texttable compu method could not decode '{internal_value!r}'.", EncodeError)
 
     def is_valid_physical_value(self, physical_value: AtomicOdxType) -> bool:
-        if self._compu_physical_default_value is not None:
-            return True
-
         scales = []
         if (cpti := self.compu_internal_to_phys) is not None:
             scales = cpti.compu_scales
 
-        return any(scale.compu_const.value == physical_value
-                   for scale in scales
-                   if scale.compu_const is not None)
+        num_matching_scales = len([
+            scale for scale in scales
+            if scale.compu_const is not None and scale.compu_const.value == physical_value
+        ])
+
+        if num_matching_scales == 0:
+            # physical values which are not mentioned by the table can
+            # be converted if a default for the internal value has
+            # been specified
+            return self._compu_internal_default_value is not None
+
+        # the value cannot be converted if it is not unique
+        return num_matching_scales == 1
 
     def is_valid_internal_value(self, internal_value: AtomicOdxType) -> bool:
-        if self._compu_internal_default_value is not None:
+        if not self.internal_type.isinstance(internal_value):
+            return False
+
+        if self._compu_physical_default_value is not None:
+            # internal values which are not covered by the table are
+            # converted to the default physical value
             return True
 
         scales = []
